@@ -197,7 +197,11 @@ rfbEncryptBytes(unsigned char *bytes, char *passwd)
 	}
     }
 
-    encrypt_rfbdes(bytes, &out_len, key, bytes, CHALLENGESIZE);
+    if (!encrypt_rfbdes(bytes, &out_len, key, bytes, CHALLENGESIZE)) {
+	/* Fail closed: never hand back the plaintext, a peer that merely echoes
+	   the challenge would otherwise be authenticated. */
+	random_bytes(bytes, CHALLENGESIZE);
+    }
 }
 
 void
